@@ -162,12 +162,13 @@ def judge(ctx: core.Ctx, case: dict[str, Any]) -> None:
                     ctx.count("must_raise_output")
                     if o.err_class != "OutputStreamLimitError":
                         ctx.evaluations += 1
-                        ctx.violation(f"wrong-error-over-limit:{o.err_class}:{construct(case)}", f"unlimited output {U} > limit {L}: raised {o.err_class} instead of OutputStreamLimitError: {str(o.exc)[:80]}")
+                        ctx.violation(f"wrong-error-over-limit:{o.err_class}:{construct(case)}", f"unlimited output {U} > limit {L}: raised {o.err_class} instead of OutputStreamLimitError: {drv.safe_str(o.exc)[:80]}")
                         return
                 if not o.is_liquid_error:
                     ctx.count("non_liquid_error_forwarded_to_C02")
     if S > 0:
-        for M in sorted({0, 1, max(S - 1, 1), S, S + 1, 2 * S}):
+        r = core.random.Random(core.stable_hash([case["source"], "M"]))
+        for M in sorted({0, 1, max(S - 1, 1), S, S + 1, 2 * S} | {r.randint(1, S) for _ in range(3)}):
             for mode in ("strict", "lax"):
                 o, h = run(case, mode, {"local_namespace_limit": M}, data)
                 ctx.count("assign_postconditions", h["assigns"])
@@ -197,7 +198,48 @@ def gen_case(rng) -> dict[str, Any]:
     return {"source": tpl.print_nodes(main, st, rng), "partials": {n: tpl.print_nodes(b, st, rng) for n, b in partials.items()}, "data": V.enc(d), "async": rng.random() < 0.1}
 
 
+def gen_chain_case(rng) -> dict[str, Any]:
+    """A chain of 2-4 nested render / include levels; each level binds locals of varied size before and/or after the nested call - or nothing
+    at all (a pass-through level), which is where a carried size is most easily lost."""
+    n = rng.randint(2, 4)
+    partials: dict[str, str] = {}
+    names = ["main"] + [f"c{i}" for i in range(1, n)]
+
+    def binds(i: int) -> str:
+        k = rng.choice([0, 0, 1, 2])
+        out = []
+        for j in range(k):
+            v = rng.choice(["'é'", "'" + "x" * rng.randint(1, 60) + "'", "s", "s | append: s", "ys"])
+            out.append(rng.choice(["{% assign l" + str(i) + str(j) + " = " + v + " %}", "{% capture k" + str(i) + str(j) + " %}{{ " + v + " }}{% endcapture %}"]))
+        return "".join(out)
+
+    for i in range(n - 1, -1, -1):
+        body = binds(i)
+        if i < n - 1:
+            tag = rng.choice(["render", "render", "include"]) if i == 0 or "render" not in partials.get("_tags", "") else "render"
+            call = "{% " + tag + " '" + names[i + 1] + "' %}"
+            if rng.random() < 0.25:
+                call = "{% for q in (1..2) %}" + call + "{% endfor %}"
+            body += call + (binds(i) if rng.random() < 0.4 else "")
+        else:
+            body += "{% assign deep = s | append: 'tail' %}{{ deep | size }}"
+        if i == 0:
+            src = body
+        else:
+            partials[names[i]] = body
+    # include is not allowed below a render: make every call below the first render a render
+    seen_render = "render '" in src
+    for nm in names[1:]:
+        if seen_render:
+            partials[nm] = partials[nm].replace("{% include '", "{% render '")
+        if "render '" in partials[nm]:
+            seen_render = True
+    d = {"s": rng.choice(["é", "日本語", "plain text", "y" * 40]), "ys": ["é", "ß", "x"][: rng.randint(0, 3)]}
+    return {"source": src, "partials": partials, "data": V.enc(d), "async": rng.random() < 0.15}
+
+
 HAND = [
+    {"source": "{% assign big = 'xxxxxxxxxxxxxxxxxxxxxxxxxxxxxxxxxxxxxxxx' %}{% render 'mid' %}", "partials": {"mid": "{% render 'leaf' %}", "leaf": "{% assign v = 'yyyyyyyyyyyyyyyyyyyyyyyy' %}{{ v | size }}"}},
     {"source": "{{ s }}{% capture c %}{{ s }}{{ s }}{% endcapture %}{{ c }}", "partials": {}},
     {"source": "é{% render 'p' %}é", "partials": {"p": "日{% capture c %}😀{% endcapture %}{{ c }}"}},
     {"source": "{% for i in (1..3) %}{% ifchanged %}é{% endifchanged %}{% include 'p' %}{% endfor %}", "partials": {"p": "{{ s }}"}},
@@ -210,5 +252,5 @@ def cases(ctx: core.Ctx):
     for h in HAND:
         yield dict(h, data=V.enc({"s": "日本語😀"}))
     rng = ctx.rng("cases")
-    for _ in range(ctx.budget(1500, 300_000)):
-        yield gen_case(rng)
+    for i in range(ctx.budget(1500, 300_000)):
+        yield gen_chain_case(rng) if i % 4 == 1 else gen_case(rng)
